@@ -23,4 +23,8 @@ _Bool _ZStneIcSaIcEEbRKSt6vectorIT_T0_ES6_(const struct vec_char *a, const struc
   __CPROVER_assert(__CPROVER_r_ok(a, 24) && __CPROVER_r_ok(b, 24), "operator!=(vector<char>): both vectors are live objects");
   return __g2c_nondet_bool();
 }
+/* std::vector<bloc::Expression*>::vector() : an empty vector */
+struct vec_ExpressionPtr;
+void _ZNSt6vectorIPN4bloc10ExpressionESaIS2_EEC1Ev(struct vec_ExpressionPtr *this) { (void)this; }
+void _ZNSt6vectorIPN4bloc10ExpressionESaIS2_EED1Ev(struct vec_ExpressionPtr *this) { (void)this; }
 #endif
